@@ -5,6 +5,7 @@
 -/
 import RdfModel.Props.C03
 import RdfModel.Props.C03Tables
+import RdfModel.Props.C03Relabel
 import RdfModel.Props.C04Facts
 open RdfModel RdfModel.C03 RdfModel.C04
 
@@ -21,6 +22,12 @@ open RdfModel RdfModel.C03 RdfModel.C04
 #print axioms RdfModel.C03.first_degree_model
 #print axioms RdfModel.C03.canon_invariant_simple
 #print axioms RdfModel.C03.limit_never_wrong
+#print axioms RdfModel.C03.spec_equivariant
+#print axioms RdfModel.C03.heapPerms_renamed
+#print axioms RdfModel.C03.canon_invariant_relabel
+#print axioms RdfModel.C03.canon_invariant_of_order_invariant
+#print axioms RdfModel.C03.canon_invariant_unique_partial
+#print axioms RdfModel.C03.uniqueHash_of_allDistinct
 #print axioms RdfModel.C03.gen_nquads_label
 #print axioms RdfModel.C04.facts_loop_control
 #print axioms RdfModel.C03.Witness.wf1
